@@ -117,6 +117,15 @@ CLAIMED = {
         "Trusted: vverif/spec_abi.py, spec_source.py, bytecode denotation, z3. abi_encode() builtin, custom errors and dynamic external-call arguments are not in the reference semantics yet.",
         "DESIGN.md 3/C06",
     ),
+    "C17": (
+        "proof",
+        "contract-based deductive verification, template route: `return E(literal operands)` compiled by the real compiler vs the reference semantics run with folding ignored (run-time rules on the same operands); closed formulas discharged by z3",
+        "Per expression instance (about 5 000 in the quick tier: + - * // % ** comparisons min max unsafe_* on uint8/int8/int128/uint256/int256 over all pairs of boundary operands; & | ^ ~ << >> addmod mulmod pow_mod256 abs; decimal + - * / floor ceil; "
+        "boolean operators; convert of int/decimal/bool/bytesM/hex-bytes literals; membership in literal lists incl. hex literals of different letter case; min_value/max_value/epsilon/len) and configuration: whenever the compiler accepts the program and the run-time "
+        "rules give a value, the deployed code returns exactly that value (front-end folding, legacy optimiser folding and Venom SCCP all included). One genuine defect found and repaired (F13).",
+        "Trusted: vverif/spec_source.py, spec_vyper.py, bytecode denotation, z3. Instance family, not all operand values (the folding kernels of Venom SCCP and of the legacy optimiser are proved for all literal values under C14/C15). keccak256/sha256/uint2str/as_wei_value/method_id not covered.",
+        "DESIGN.md 3/C17",
+    ),
     "C07": (
         "proof",
         "contract-based deductive verification, template route: the real compiler's run-time bytecode for each contract shape and configuration is denoted for all calldata/values and the dispatch contract is discharged by z3; jump-table kernels by bounded run-time contract evaluation",
